@@ -1,8 +1,9 @@
 /-
 C01 / C08 — the importer step (file → grid of cells), model `Model.Importer` (tied by `corr.importer.grid`).
 
+* `C01_csv_cells_verbatim`: through CSV every cell position reads the text written there (true since fix D46 —
+  `csv_skipping_reader_moves_rows` shows what the skipping reader did to a one-column sheet).
 * `C01_csv_rows_verbatim`: a CSV grid without blank-line records is handed on exactly as written.
-* `C01_csv_only_blank_lines_dropped`: in general the rows handed on are the written rows minus blank-line records, in order.
 * `C08_xlsx_cells_verbatim`: through XLSX every cell position reads the same text as in the written grid (blank beyond
   a row's / the grid's end) — only trailing blanks are not stored; so the XLSX twin and the CSV twin of one grid agree
   cell by cell (`C08_twins_cell_by_cell`).
@@ -11,23 +12,6 @@ import TableauVerif.Model.Importer
 import TableauVerif.Spec.Grid
 namespace TableauVerif.Props.C01Grid
 open TableauVerif TableauVerif.Model.Importer
-
-theorem C01_csv_rows_verbatim (q : Bool) (rows : List (List Str)) (h : ∀ r ∈ rows, r ≠ [[]]) :
-    csvGrid q rows = rows := by
-  unfold csvGrid
-  split
-  · rfl
-  · apply List.filter_eq_self.mpr
-    intro r hr
-    simp [blankLine, h r hr]
-
-theorem C01_csv_only_blank_lines_dropped (q : Bool) (rows : List (List Str)) :
-    (csvGrid q rows).Sublist rows ∧ ∀ r ∈ rows, r ≠ [[]] → r ∈ csvGrid q rows := by
-  unfold csvGrid
-  split
-  · exact ⟨List.Sublist.refl _, fun _ h _ => h⟩
-  · refine ⟨List.filter_sublist, fun r hr hne => ?_⟩
-    simp [List.mem_filter, hr, blankLine, hne]
 
 /-- the text at a cell position (blank outside) -/
 abbrev cellAt := Spec.Grid.cellAt
@@ -85,10 +69,65 @@ theorem C08_xlsx_cells_verbatim (rows : List (List Str)) (i j : Nat) :
   rw [getD_trimRight, getD_map_trim]
   exact getD_trimRight (rows.getD i []) j
 
-/-- the CSV twin and the XLSX twin of one grid (no blank-line records) agree at every cell position -/
-theorem C08_twins_cell_by_cell (q : Bool) (rows : List (List Str)) (h : ∀ r ∈ rows, r ≠ [[]]) (i j : Nat) :
+theorem getD_map_of_nil {f : List Str → List Str} (hf : f [] = []) (rows : List (List Str)) (i : Nat) :
+    (rows.map f).getD i [] = f (rows.getD i []) := by
+  induction rows generalizing i with
+  | nil => simp [hf]
+  | cons r rs ih =>
+    cases i with
+    | zero => simp
+    | succ i => simpa using ih i
+
+theorem C01_csv_cells_verbatim (q : Bool) (rows : List (List Str)) (i j : Nat) :
+    cellAt (csvGrid q rows) i j = cellAt rows i j := by
+  unfold csvGrid
+  cases q
+  · simp only [Bool.false_eq_true, if_false]
+    unfold cellAt Spec.Grid.cellAt
+    rw [getD_trimRight, getD_map_of_nil (by simp [blankLine])]
+    by_cases hb : blankLine (rows.getD i []) = true
+    · have : rows.getD i [] = [[]] := by simpa [blankLine] using hb
+      rw [this]
+      cases j <;> simp [blankLine]
+    · rw [if_neg hb]
+  · simp
+
+theorem trimRight_id {α} (p : α → Bool) (l : List α) (h : ∀ x ∈ l, p x = false) : trimRight p l = l := by
+  unfold trimRight
+  have : l.reverse.dropWhile p = l.reverse := by
+    cases hr : l.reverse with
+    | nil => rfl
+    | cons a t =>
+      have : a ∈ l := by rw [← List.mem_reverse, hr]; simp
+      simp [h a this]
+  rw [this, List.reverse_reverse]
+
+theorem C01_csv_rows_verbatim (q : Bool) (rows : List (List Str)) (h : ∀ r ∈ rows, r ≠ [[]] ∧ r ≠ []) :
+    csvGrid q rows = rows := by
+  unfold csvGrid
+  split
+  · rfl
+  · have hm : (rows.map fun r => if blankLine r then [] else r) = rows := by
+      conv => rhs; rw [← List.map_id rows]
+      apply List.map_congr_left
+      intro r hr
+      simp [blankLine, (h r hr).1]
+    rw [hm]
+    apply trimRight_id
+    intro r hr
+    simpa using (h r hr).2
+
+/-- what the reader did before fix D46 (empty lines skipped): the one-column sheet `Name / (blank note) / type / data`
+lost its blank row, so the type row was found one line too early -/
+theorem csv_skipping_reader_moves_rows :
+    let rows : List (List Str) := [[[78]], [[]], [[116]], [[49]]]
+    cellAt (rows.filter (fun r => !blankLine r)) 2 0 = [49] ∧ cellAt (csvGrid false rows) 2 0 = [116] := by
+  decide
+
+/-- the CSV twin and the XLSX twin of one grid agree at every cell position -/
+theorem C08_twins_cell_by_cell (q : Bool) (rows : List (List Str)) (i j : Nat) :
     cellAt (csvGrid q rows) i j = cellAt (xlsxGrid rows) i j := by
-  rw [C01_csv_rows_verbatim q rows h, C08_xlsx_cells_verbatim]
+  rw [C01_csv_cells_verbatim, C08_xlsx_cells_verbatim]
 
 theorem sameCells_of_cells (w o : List (List Str)) (h : ∀ i j, cellAt o i j = cellAt w i j) :
     Spec.Grid.sameCells w o = true := by
@@ -99,26 +138,16 @@ theorem sameCells_of_cells (w o : List (List Str)) (h : ∀ i j, cellAt o i j = 
 
 /-- the importer model meets the cell-by-cell specification the oracle `o.imp.grid` evaluates (CSV) -/
 theorem C01_csv_model_meets_spec (q : Bool) (rows : List (List Str)) :
-    Spec.Grid.holds (!q) rows (csvGrid q rows) = true := by
-  unfold Spec.Grid.holds csvGrid
-  cases q
-  · simp only [Bool.not_false, if_true, Bool.false_eq_true, if_false]
-    have : (rows.filter fun r => !blankLine r) = rows.filter (· != [[]]) := by
-      apply List.filter_congr; intro r _; simp [blankLine, bne]
-    rw [this]
-    exact sameCells_of_cells _ _ (fun _ _ => rfl)
-  · simp only [Bool.not_true, Bool.false_eq_true, if_false, if_true]
-    exact sameCells_of_cells _ _ (fun _ _ => rfl)
+    Spec.Grid.holds rows (csvGrid q rows) = true :=
+  sameCells_of_cells _ _ (fun i j => C01_csv_cells_verbatim q rows i j)
 
 /-- … and for XLSX -/
 theorem C08_xlsx_model_meets_spec (rows : List (List Str)) :
-    Spec.Grid.holds false rows (xlsxGrid rows) = true := by
-  unfold Spec.Grid.holds
-  simp only [Bool.false_eq_true, if_false]
-  exact sameCells_of_cells _ _ (fun i j => C08_xlsx_cells_verbatim rows i j)
+    Spec.Grid.holds rows (xlsxGrid rows) = true :=
+  sameCells_of_cells _ _ (fun i j => C08_xlsx_cells_verbatim rows i j)
 
 -- tests (labelled as tests): premises satisfiable, trimming visible
 example : xlsxGrid [[[97], [], []], [], [[], [98]], [], [[]]] = [[[97]], [], [[], [98]]] := by decide
-example : csvGrid false [[[97]], [[]], [[], []]] = [[[97]], [[], []]] := by decide
+example : csvGrid false [[[97]], [[]], [[], []], [[]]] = [[[97]], [], [[], []]] := by decide
 
 end TableauVerif.Props.C01Grid
